@@ -95,7 +95,7 @@ def rand_conts(g, n=None, small=False):
 
 
 # ------------------------------------------------------------------ suites
-ENTRIES = ["readfrom", "frombuffer", "fromunsafe", "unmarshal", "base64", "readfromck", "must", "mustck"]
+ENTRIES = ["readfrom", "frombuffer", "fromunsafe", "unmarshal", "base64", "readfromck", "must", "mustck", "readpipe"]
 
 
 @suite("ser")
